@@ -118,6 +118,7 @@ chk("hkdf-too-long-raises-ValueError", ok)
 for _ in range(min(N, 200)):
     x, e, m = rng.getrandbits(70), rng.getrandbits(9), rng.getrandbits(40) + 1
     chk("powmod", pow(x, e, m) == (x ** e) % m and 0 <= pow(x, e, m) < m and pow(x, e, m) == pow(x % m, e, m), x, e, m)
+    chk("powmod-small", all(pow(x - 2 ** 69, k, m) == ((x - 2 ** 69) ** k) % m for k in (2, 3, 4)), x, m)
     a, bq = rng.getrandbits(64) - 2 ** 63, rng.getrandbits(20) + 1
     chk("floor-divmod", a == bq * (a // bq) + a % bq and 0 <= a % bq < bq, a, bq)
 d = {"k%d" % i: "%02x" % i for i in range(5)}
